@@ -181,7 +181,7 @@ def run_portfolio(job, trace_prop=None, timeout=None, backends=None):
                     for m in data:
                         if isinstance(m, dict) and 'result' in m:
                             concl = True
-                    if '(error' in o or '(error' in e:
+                    if '(error' in o or '(error' in e or 'returned error' in o or 'returned error' in e:
                         concl = False
                 if concl:
                     winner = b
@@ -199,7 +199,7 @@ def run_portfolio(job, trace_prop=None, timeout=None, backends=None):
                 o, e, rc = outs[b]
                 data = _parse_json(o)
                 if data is not None and rc in (0, 10) and any(isinstance(m, dict) and 'result' in m for m in data) \
-                        and '(error' not in o:
+                        and '(error' not in o and 'returned error' not in o:
                     winner = b
                     break
                 errors[b] = (o, e, rc)
